@@ -179,19 +179,24 @@ fn fees_part(s: &mut Scen, rng: &mut Rng, rep: &mut Report) {
 fn emissions_part(s: &mut Scen, rng: &mut Rng, rep: &mut Report) {
     let b = rng.below(s.banks.len() as u64) as usize;
     let h = s.banks[b];
-    let kind = if rng.chance(1, 3) { TokenKind::T22 } else { TokenKind::Spl };
+    // the emissions mint: classic SPL, Token-2022, or Token-2022 with a transfer fee (the vault then receives what is left
+    // after the fee; "funded" below always means what actually ARRIVED in the emissions vault)
+    let kind = match rng.below(4) {
+        0 => TokenKind::T22,
+        1 => TokenKind::T22Fee { bps: *rng.pick(&[1u16, 100, 500, 999]), max_fee: *rng.pick(&[5_000u64, 1_000_000_000, u64::MAX]) },
+        _ => TokenKind::Spl,
+    };
+    let fee_mint = matches!(kind, TokenKind::T22Fee { .. });
     let dec = *rng.pick(&[6u8, 9, 0]);
     let emint = s.w.add_mint(kind, dec);
     let tp = s.w.token_program_of(&emint);
-    let funded_tokens: u64 = match rng.below(4) {
+    let total: u64 = match rng.below(4) {
         0 => 1 + rng.below(50),                 // small pool: the cap binds
         1 => 1_000 + rng.below(1_000_000),
         _ => 1_000_000_000 + rng.below(1_000_000_000_000),
     };
-    let (auth, _) = ix::emissions_auth_pda(&h.bank, &emint);
+    let (_auth, _) = ix::emissions_auth_pda(&h.bank, &emint);
     let (vault, _) = ix::emissions_vault_pda(&h.bank, &emint);
-    s.w.add_token_account_at(vault, emint, auth, funded_tokens);
-    let mut bank = s.w.bank(&h.bank);
     let rate: u64 = match rng.below(4) {
         0 => 1 + rng.below(1000),
         1 => 1_000_000_000 * (1 + rng.below(1000)),
@@ -199,11 +204,20 @@ fn emissions_part(s: &mut Scen, rng: &mut Rng, rep: &mut Report) {
         _ => 10u64.pow(dec as u32) * (1 + rng.below(100)),
     };
     let fl = *rng.pick(&[EMISSIONS_FLAG_LENDING_ACTIVE, EMISSIONS_FLAG_BORROW_ACTIVE, EMISSIONS_FLAG_LENDING_ACTIVE | EMISSIONS_FLAG_BORROW_ACTIVE]);
-    bank.emissions_mint = emint;
-    bank.emissions_rate = rate;
-    bank.flags |= fl;
-    bank.emissions_remaining = I80F48::from_num(funded_tokens).into();
-    s.w.set_bank(&h.bank, &bank);
+    // the REAL lending_pool_setup_emissions, signed by the emissions admin (= group admin in these worlds), funded from its account
+    let funding = s.w.add_token_account(emint, s.admin, u64::MAX / 4);
+    if s.w.exec(&ix::setup_emissions(&h, s.admin, emint, funding, tp, fl, rate, total)).is_err() {
+        rep.bump("setup_emissions_failed");
+        return;
+    }
+    let funded_tokens = s.w.token_amount(&vault);
+    {
+        let bk = s.w.bank(&h.bank);
+        let rem = bits(bk.emissions_remaining);
+        if BigInt::from(rem) > BigInt::from(funded_tokens) * BigInt::from(ONE) {
+            rep.fail(format!("lending_pool_setup_emissions credited {} bits of rewards but the emissions vault received {} tokens", rem, funded_tokens));
+        }
+    }
     let mut funded_tokens = funded_tokens;
     let mut paid: u64 = 0;
     // the monitor's OWN record of when each position's rewards were last brought up to date
@@ -229,8 +243,10 @@ fn emissions_part(s: &mut Scen, rng: &mut Rng, rep: &mut Report) {
             rep.fail(format!("emissions_remaining negative ({}) after {}", rem, what));
         }
         let total = BigInt::from(rem) + outstanding(s) - &base0 + BigInt::from(paid) * BigInt::from(ONE);
-        if total != funded {
-            rep.fail(format!("emissions pool equation broken after {}: remaining {} + outstanding {} + paid {}·2^48 != funded {}·2^48", what, rem, outstanding(s), paid, funded_tokens));
+        // rewards credited + still creditable + paid out never exceed what arrived in the vault; without a transfer fee
+        // they are exactly equal (with one, the vault receives a little more than was credited)
+        if total > funded || (!fee_mint && total != funded) {
+            rep.fail(format!("emissions pool equation broken after {}: remaining {} + outstanding {} + paid {}·2^48 vs funded {}·2^48 (vault inflows)", what, rem, outstanding(s), paid, funded_tokens));
         }
         let v = s.w.token_amount(&vault);
         if v != funded_tokens - paid {
@@ -242,17 +258,36 @@ fn emissions_part(s: &mut Scen, rng: &mut Rng, rep: &mut Report) {
         let (acct, wallet) = (s.users[u].acct, s.users[u].wallet);
         match rng.below(13) {
             12 => {
-                // the emissions admin tops the campaign up (state edit: pool and vault together)
+                // the emissions admin tops the campaign up through the REAL lending_pool_update_emissions_parameters
                 let add = 1 + rng.below(1_000_000_000);
-                let mut bk = s.w.bank(&h.bank);
-                let rem = bits(bk.emissions_remaining);
-                bk.emissions_remaining = I80F48::from_bits(rem + (add as i128) * ONE).into();
-                s.w.set_bank(&h.bank, &bk);
-                let v = s.w.token_amount(&vault);
-                s.w.set_token_amount(&vault, v + add);
-                funded_tokens += add;
-                rep.bump("top_up");
-                if rem == 0 { rep.bump("top_up_after_exhaustion"); }
+                let rem0 = bits(s.w.bank(&h.bank).emissions_remaining);
+                let v0 = s.w.token_amount(&vault);
+                use anchor_lang::{InstructionData, ToAccountMetas};
+                let ixn = solana_program::instruction::Instruction {
+                    program_id: marginfi::ID,
+                    accounts: marginfi::accounts::LendingPoolUpdateEmissionsParameters {
+                        group: h.group,
+                        delegate_emissions_admin: s.admin,
+                        bank: h.bank,
+                        emissions_mint: emint,
+                        emissions_token_account: vault,
+                        emissions_funding_account: funding,
+                        token_program: tp,
+                    }
+                    .to_account_metas(None),
+                    data: marginfi::instruction::LendingPoolUpdateEmissionsParameters { emissions_flags: None, emissions_rate: None, additional_emissions: Some(add) }.data(),
+                };
+                if s.w.exec(&ixn).is_ok() {
+                    let arrived = s.w.token_amount(&vault) - v0;
+                    let credited = bits(s.w.bank(&h.bank).emissions_remaining) - rem0;
+                    funded_tokens += arrived;
+                    rep.bump("top_up");
+                    if rem0 == 0 { rep.bump("top_up_after_exhaustion"); }
+                    if BigInt::from(credited) > BigInt::from(arrived) * BigInt::from(ONE) {
+                        rep.fail(format!("emissions top-up credited {} bits of rewards but only {} tokens arrived in the emissions vault (asked {}, transfer-fee mint: {})", credited, arrived, add, fee_mint));
+                    }
+                    check(s, paid, funded_tokens, "top-up", rep);
+                }
             }
             0 | 1 | 10 | 11 => {
                 let dt = *rng.pick(&[1i64, 3600, 86400, 604800, 31_536_000, 31_536_000]);
@@ -324,8 +359,9 @@ fn emissions_part(s: &mut Scen, rng: &mut Rng, rep: &mut Report) {
                 if s.w.exec(&ix::withdraw_emissions(&h, acct, wallet, emint, vault, dsts[u], tp)).is_ok() {
                     rep.bump("withdraw_ok");
                     let moved = pv - s.w.token_amount(&vault);
-                    if s.w.token_amount(&dsts[u]) - pd != moved {
-                        rep.fail(format!("withdraw_emissions took {} from the vault but the destination got {}", moved, s.w.token_amount(&dsts[u]) - pd));
+                    let got = s.w.token_amount(&dsts[u]) - pd;
+                    if got > moved || (!fee_mint && got != moved) {
+                        rep.fail(format!("withdraw_emissions took {} from the vault but the destination got {}", moved, got));
                     }
                     paid += moved;
                     if moved > 0 { rep.bump("payout_positive"); }
@@ -354,8 +390,9 @@ fn emissions_part(s: &mut Scen, rng: &mut Rng, rep: &mut Report) {
                 if s.w.exec(&ix::withdraw_emissions_permissionless(&h, acct, emint, vault, dest_atas[u], tp)).is_ok() {
                     rep.bump("permissionless_ok");
                     let moved = pv - s.w.token_amount(&vault);
-                    if s.w.token_amount(&dest_atas[u]) - pd != moved {
-                        rep.fail(format!("permissionless emissions withdrawal took {} but the destination got {}", moved, s.w.token_amount(&dest_atas[u]) - pd));
+                    let got = s.w.token_amount(&dest_atas[u]) - pd;
+                    if got > moved || (!fee_mint && got != moved) {
+                        rep.fail(format!("permissionless emissions withdrawal took {} but the destination got {}", moved, got));
                     }
                     paid += moved;
                     last_claim[u] = Some(s.w.clock_ts);
